@@ -1,8 +1,8 @@
 # C15: every sample lands in exactly one grid bin; grid files round-trip
 from cvsym import checklib as CL
-FNS = ['h_c15_hist1d', 'h_c15_hist_custom', 'h_c15_hist2d', 'h_c15_index', 'h_c15_address', 'h_c15_roundtrip']
+FNS = ['h_c15_hist1d', 'h_c15_hist_custom', 'h_c15_hist_coarser', 'h_c15_hist_finer', 'h_c15_hist2d', 'h_c15_index', 'h_c15_address', 'h_c15_roundtrip']
 def groups(tier):
-    b = {'grids': '1-D 4 bins, custom 2 bins, 2-D 3 x 4 with one periodic dimension; gradient grid 3 x 4 x 2 for file round trips', 'values': 'all real values in (-1000, 1000)',
+    b = {'grids': '1-D 4 bins, custom 2 bins, custom width only (coarser: 2 bins, finer: 8 bins), 2-D 3 x 4 with one periodic dimension; gradient grid 3 x 4 x 2 for file round trips', 'values': 'all real values in (-1000, 1000)',
          'pre-state': 'arbitrary real cell contents', 'schedules': 'later step of a run / first step of a run / step 0'}
     return [CL.Group('C15_grid.cpp', FNS, setup=['h_c15_setup'], bounds=b)]
 MANIFEST = {
